@@ -17,7 +17,7 @@ def r1_growth(ctx, f, rep):
                        'update\'s address; no other mutator of inner adds a record; Members::new is called with Vec::new()')
     pushes = []
     mutators = {}
-    for b in f.bodies:
+    for b in f.analysed_bodies():
         if not b.nname.startswith('member::Members'):
             continue
         for p in ctx.paths(f, b, 'none'):
